@@ -83,6 +83,27 @@ template <class A> static std::string agg_result(const A& a) {
            ",\"nnvar\":" + I(std::llround(nnvar)) + ",\"exact\":" + Bo(std::fabs(nnvar - std::round(nnvar)) < 1e-6 && std::fabs(a.mean() * n - std::round(a.mean() * n)) < 1e-6) + "}";
 }
 
+// every accessor that has an alias must agree with it; span = max - min
+template <class A> static bool agg_aliases(const A& a) {
+    bool ok = a.total() == a.sum() && a.avg() == a.mean() && a.average() == a.mean() && a.var() == a.variance() && a.stdev() == a.standard_deviation()
+              && a.var(0) == a.variance(0);
+    if (a.count() > 0) ok = ok && a.span() == a.max() - a.min();
+    if (a.count() > 1) ok = ok && std::fabs(a.stdev() * a.stdev() - a.variance()) <= 1e-9 * (1 + a.variance()) &&
+                              std::fabs(a.variance(0) * (double)a.count() - a.variance() * (double)(a.count() - 1)) <= 1e-9 * (1 + a.variance() * a.count());
+    return ok;
+}
+template <class T> static void agg_case(Out& out, char ty, const std::vector<long long>& xs, const std::vector<long long>& ys) {
+    tlx::Aggregate<T> ax, ay, all;
+    for (auto x : xs) { ax.add((T)x); all.add((T)x); }
+    for (auto y : ys) { ay.add((T)y); all.add((T)y); }
+    tlx::Aggregate<T> plus = ax + ay, pluseq = ax; pluseq += ay;
+    tlx::Aggregate<T> rev = ay; rev += ax;
+    tlx::Aggregate<T> chain = tlx::Aggregate<T>() + ax; chain += tlx::Aggregate<T>(); chain += ay;      // empty operands on both sides
+    Ev e("agg"); e.str("ty", std::string(1, ty)).arr("xs", xs).arr("ys", ys).raw("results", "[" + agg_result(all) + "," + agg_result(plus) + "," + agg_result(pluseq) + "," + agg_result(rev) + "," + agg_result(ay + ax) + "," + agg_result(chain) + "]");
+    e.raw("aliases", Bo(agg_aliases(all) && agg_aliases(plus) && agg_aliases(pluseq)));
+    e.emit(out);
+}
+
 int main(int argc, char** argv) {
     if (argc < 3) return 2;
     std::ifstream in(argv[1]);
@@ -106,14 +127,14 @@ int main(int argc, char** argv) {
             e.num("div_ceil", (a >= 0 && b > 0) ? tlx::div_ceil((int)a, (int)b) : 0).num("round_up", (a >= 0 && b > 0) ? tlx::round_up((int)a, (int)b) : 0);
             e.emit(out);
         } else {
+            // "A <type> nx x... ny y...": type in {q = long long, i = int, d = double, f = float, u = unsigned}
+            char ty; is >> ty;
             size_t nx, ny; is >> nx; std::vector<long long> xs(nx); for (auto& x : xs) is >> x; is >> ny; std::vector<long long> ys(ny); for (auto& y : ys) is >> y;
-            tlx::Aggregate<long long> ax, ay, all;
-            for (auto x : xs) { ax.add(x); all.add(x); }
-            for (auto y : ys) { ay.add(y); all.add(y); }
-            tlx::Aggregate<long long> plus = ax + ay, pluseq = ax; pluseq += ay;
-            tlx::Aggregate<long long> rev = ay; rev += ax;
-            Ev e("agg"); e.arr("xs", xs).arr("ys", ys).raw("results", "[" + agg_result(all) + "," + agg_result(plus) + "," + agg_result(pluseq) + "," + agg_result(rev) + "," + agg_result(ay + ax) + "]");
-            e.emit(out);
+            if (ty == 'q') agg_case<long long>(out, ty, xs, ys);
+            else if (ty == 'i') agg_case<int>(out, ty, xs, ys);
+            else if (ty == 'd') agg_case<double>(out, ty, xs, ys);
+            else if (ty == 'f') agg_case<float>(out, ty, xs, ys);
+            else agg_case<unsigned>(out, ty, xs, ys);
         }
     }
     out.flush();
